@@ -991,11 +991,18 @@ class EventBus:
                     handler=handler, eventbus=self, status='pending', timeout=timeout or event.event_timeout
                 )
 
-        # Execute handlers
-        await self._execute_handlers(event, handlers=applicable_handlers, timeout=timeout)
+        try:
+            # Execute handlers
+            await self._execute_handlers(event, handlers=applicable_handlers, timeout=timeout)
 
-        await self._default_log_handler(event)
-        await self._default_wal_handler(event)
+            await self._default_log_handler(event)
+            await self._default_wal_handler(event)
+        except asyncio.CancelledError:
+            # the task processing this event was cancelled (e.g. the timeout of a handler that is processing this event inline
+            # while awaiting a child): an interrupted handler's result is already recorded as an error, so do not abandon the
+            # event with only finished results and a completion signal that nobody will ever set
+            event.event_mark_complete_if_all_handlers_completed()
+            raise
 
         # Mark event as complete if all handlers are done
         event.event_mark_complete_if_all_handlers_completed()
